@@ -75,8 +75,9 @@ pub fn err_term(e: &BinaryError) -> String {
         BinaryError::InvalidConstantType(_) => "EConstTag".into(),
         BinaryError::InvalidNestedFunctionIndex { .. } => "ENestedIdx".into(),
         BinaryError::InvalidUtf8 => "EUtf8".into(),
-        BinaryError::InvalidPointer(_) => "EPtr".into(),
         BinaryError::UnexpectedEof => "EEof".into(),
+        // matched by its message so that the harness also builds against a tree without the variant
+        other if other.to_string().starts_with("Invalid pointer constant") => "EPtr".into(),
         BinaryError::LimitExceeded { what, .. } => {
             let id = match *what {
                 "function nesting depth" => 0,
@@ -93,6 +94,8 @@ pub fn err_term(e: &BinaryError) -> String {
             };
             format!("(ELimit {})", id)
         }
+        #[allow(unreachable_patterns)]
+        _ => "EOther".into(),
     }
 }
 
